@@ -463,18 +463,29 @@ def euler_matrix(P, rep, rule="EULER.matrix"):
                    "R*R^T = I and det R = +1 identically (trigonometric simplification); it is the basis every fixed or deflected grain "
                    "orientation starts from")
     F = P.func("WorldBuilder::Utilities::euler_angles_to_rotation_matrix")
+    a = sp.symbols("phi1_d theta_d phi2_d", real=True)
     ent = _entries(P, F)
     if set(ent) != {(r, c) for r in range(3) for c in range(3)}:
-        rep.unknown(rule, "euler_angles_to_rotation_matrix: the nine entries are not assigned as M[r][c] = e (found %d)" % len(ent))
-        return
-    a = sp.symbols("phi1_d theta_d phi2_d", real=True)
+        # another way of building the matrix (row arrays, one braced return): execute the function symbolically
+        from .veceval import VecEval
+        try:
+            res = VecEval(P, F, env=dict(zip(F.params, a))).run_function(astq.stmts_of(F.body))
+        except AnalysisBroken as e:
+            rep.unknown(rule, "euler_angles_to_rotation_matrix: %s" % e)
+            return
+        if not (isinstance(res, tuple) and len(res) == 3 and all(isinstance(r_, tuple) and len(r_) == 3 for r_ in res)):
+            rep.unknown(rule, "euler_angles_to_rotation_matrix: the returned value is not a 3x3 matrix")
+            return
+        M = sp.Matrix(3, 3, lambda r, c: res[r][c])
+        ent = None
 
     def hook(n):
         if n.get("k") == "DeclRefExpr" and P.d(n["r"]).get("qn") == "WorldBuilder::Consts::PI":
             return sp.pi
         return None
-    sym = norm.Sym(P, F, inline_locals=True, hook=hook, env=dict(zip(F.params, a)))
-    M = sp.Matrix(3, 3, lambda r, c: sym(ent[(r, c)]))
+    if ent is not None:
+        sym = norm.Sym(P, F, inline_locals=True, hook=hook, env=dict(zip(F.params, a)))
+        M = sp.Matrix(3, 3, lambda r, c: sym(ent[(r, c)]))
     if M.free_symbols - set(a):
         rep.unknown(rule, "euler_angles_to_rotation_matrix: entries depend on %s" % sorted(map(str, M.free_symbols - set(a))))
         return
@@ -488,67 +499,36 @@ def euler_matrix(P, rep, rule="EULER.matrix"):
 
 
 def matrix_product(P, rep, rule="EXPR.matmul"):
-    rep.rule(rule, "Utilities::multiply_3x3_matrices(A, B): three nested loops i, j, k over 0..2; result[i][j] is set to zero in front of the "
-                   "k loop and accumulates A[i][k]*B[k][j] in it (the product of two proper rotations is a proper rotation)")
+    from .veceval import VecEval
+    rep.rule(rule, "Utilities::multiply_3x3_matrices(A, B) returns the matrix product: the function is executed symbolically on two generic "
+                   "3x3 matrices (its counting loops have constant bounds and are unrolled) and each of the nine returned entries must "
+                   "equal sum_k A[i][k]*B[k][j] (the product of two proper rotations is a proper rotation)")
     F = P.func("WorldBuilder::Utilities::multiply_3x3_matrices")
-    loops = [n for n in F.walk(F.body) if n.get("k") == "ForStmt"]
-    if len(loops) != 3 or len(F.params) != 2:
-        rep.unknown(rule, "multiply_3x3_matrices: %d loops, %d parameters" % (len(loops), len(F.params)))
+    if len(F.params) != 2:
+        rep.unknown(rule, "multiply_3x3_matrices no longer takes two matrices")
         return
-    # order by nesting
-    loops.sort(key=lambda l: len(list(F.ancestors(l))))
-    ivs = []
-    problems = []
-    for l in loops:
-        init, cond = l["c"][0], sc(l["c"][1])
-        iv = init["c"][0] if init is not None and init.get("k") == "DeclStmt" and init["c"] else None
-        if iv is None or not iv.get("c") or sc(iv["c"][0]).get("k") != "IntegerLiteral" or int(sc(iv["c"][0])["v"]) != 0:
-            problems.append("a loop does not start at 0")
-            continue
-        if cond is None or cond.get("k") != "BinaryOperator" or cond.get("op") != "<" or not astq.is_ref_to(cond["c"][0], iv["r"]) or \
-                sc(cond["c"][1]).get("k") != "IntegerLiteral" or int(sc(cond["c"][1])["v"]) != 3:
-            problems.append("a loop does not run to < 3")
-        ivs.append(iv["r"])
-    if not problems and len(ivs) == 3:
-        i, j, k = ivs
-        A, B = F.params
-
-        def elem(n):
-            """(base key, first index key, second index key) of X[a][b]"""
-            s1 = astq.subscript(n)
-            s0 = astq.subscript(s1[0]) if s1 else None
-            if not s0:
-                return None
-            b, a1, a2 = sc(s0[0]), sc(s0[1]), sc(s1[1])
-            if b.get("k") == "DeclRefExpr" and a1.get("k") == "DeclRefExpr" and a2.get("k") == "DeclRefExpr":
-                return (b["r"], a1["r"], a2["r"])
-            return None
-        acc = [y for y in F.walk(loops[2]["c"][3]) if y.get("k") == "CompoundAssignOperator"]
-        zero = [y for y in astq.stmts_of(loops[1]["c"][3]) if y.get("k") == "BinaryOperator" and y.get("op") == "="]
-        res = None
-        if len(acc) != 1 or acc[0].get("op") != "+=":
-            problems.append("the innermost loop does not accumulate with one `+=`")
-        else:
-            tgt = elem(acc[0]["c"][0])
-            rhs = sc(acc[0]["c"][1])
-            fac = [elem(x) for x in rhs["c"]] if rhs.get("k") == "BinaryOperator" and rhs.get("op") == "*" else []
-            if tgt is None or tgt[1:] != (i, j) or P.d(tgt[0]).get("storage") != "local":
-                problems.append("the accumulated element is not result[i][j]")
-            else:
-                res = tgt[0]
-            if sorted(fac, key=str) != sorted([(A, i, k), (B, k, j)], key=str):
-                problems.append("the term is %s, not A[i][k]*B[k][j]" % norm.render(P, rhs)[:60])
-        if not (len(zero) == 1 and elem(zero[0]["c"][0]) == (res, i, j) and sc(zero[0]["c"][1]).get("k") in ("IntegerLiteral", "FloatingLiteral")
-                and float(sc(zero[0]["c"][1])["v"]) == 0.0):
-            problems.append("result[i][j] is not set to zero in front of the k loop")
-        rets = [y for y in F.walk(F.body) if y.get("k") == "ReturnStmt" and y.get("c")]
-        if res is not None and not (len(rets) == 1 and any(z.get("k") == "DeclRefExpr" and z.get("r") == res for z in F.walk(rets[0]))):
-            problems.append("the accumulated matrix is not the one returned")
-    if problems:
-        rep.violation(rule, "multiply_3x3_matrices: %s" % "; ".join(problems), F.loc, F.qn, "", "the composed grain orientation is not the matrix product",
+    A = tuple(tuple(sp.Symbol("a%d%d" % (i, j), real=True) for j in range(3)) for i in range(3))
+    B = tuple(tuple(sp.Symbol("b%d%d" % (i, j), real=True) for j in range(3)) for i in range(3))
+    V = VecEval(P, F, env={F.params[0]: A, F.params[1]: B})
+    try:
+        res = V.run_function(astq.stmts_of(F.body))
+    except AnalysisBroken as e:
+        rep.unknown(rule, "multiply_3x3_matrices: %s" % e)
+        return
+    if not (isinstance(res, tuple) and len(res) == 3 and all(isinstance(r_, tuple) and len(r_) == 3 for r_ in res)):
+        rep.unknown(rule, "multiply_3x3_matrices: the returned value is not a 3x3 matrix (%s)" % str(res)[:60])
+        return
+    bad = []
+    for i in range(3):
+        for j in range(3):
+            want = sum(A[i][k] * B[k][j] for k in range(3))
+            if sp.expand(res[i][j] - want) != 0:
+                bad.append("[%d][%d] = %s" % (i, j, sp.expand(res[i][j])))
+    if bad:
+        rep.violation(rule, "multiply_3x3_matrices: %s" % "; ".join(bad[:2])[:200], F.loc, F.qn, "", "the composed grain orientation is not the matrix product",
                       key=rule, witness="deflected random grains with a non-trivial basis orientation")
     else:
-        rep.ok(rule, "multiply_3x3_matrices: result[i][j] = sum_k A[i][k]*B[k][j]", F.loc, F.qn)
+        rep.ok(rule, "multiply_3x3_matrices: result[i][j] = sum_k A[i][k]*B[k][j] for all nine entries", F.loc, F.qn)
 
 
 def quaternion_blend(P, rep):
